@@ -397,7 +397,7 @@ func runC06(cfg *vh.Config) error {
 					res.Fail(vh.Failure{Case: em.caseNo, Stream: "json-any", Sig: fmt.Sprintf("C06 JSONToProto (WithProtoToAny) panics in %s: %s", o.Site, panicClass(o.Panic)), Clause: "decoding never panics", Input: input, Got: o.Panic})
 				case o.hard():
 					res.Fail(hardFailure("C06", "JSONToProto (WithProtoToAny)", em.caseNo, "json-any", input, o))
-				case o.Elapsed > 1*time.Second+time.Duration(len(doc))*50*time.Microsecond:
+				case o.Elapsed > 2*time.Second+time.Duration(len(doc))*50*time.Microsecond:
 					res.Fail(vh.Failure{Case: em.caseNo, Stream: "json-any", Sig: "C06 JSONToProto (WithProtoToAny) time not bounded by input size: nested Any values", Clause: "decoding returns in time bounded by the input size", Input: input, Got: o.Elapsed.String()})
 				case o.Kind != fam.want:
 					res.Fail(vh.Failure{Case: em.caseNo, Stream: "json-any", Sig: "C06 JSONToProto (WithProtoToAny) nested Any values: " + fam.want + " expected, got " + o.Kind, Clause: "decoding returns success or an error", Input: input, Got: o.Kind + " " + o.Err})
